@@ -23,6 +23,16 @@ CLAIMED = {
    note="Trusted: Coq kernel, extraction, harness; clap's option indices and std's str::replace are modelled and compared on every case.",
    technique="Coq proof + differential correspondence",
    design="5 C20"),
+ "C02": dict(
+   text="Coq theorems about a field-by-field transcription of walkdir 2.5's IntoIter stack machine driven by process_dir: for every tree, depth bound and order the walk equals the recursive DFS, which without -prune is exactly the in-range entries of the complete listing, each once; an empty depth range yields nothing; unreadable/cyclic entries are diagnosed without losing siblings. Tied to /repo by in-process find runs on generated link-rich trees under every follow mode against the extracted model fed with an independent unfolding.",
+   note="Trusted: Coq kernel, extraction, harness, lib/fstree.py's unfolding of links per follow mode (validated, not proved); walkdir's loop check, descriptor recycling and same_file_system are not modelled; unreadable directories not exercised (root).",
+   technique="Coq proof (stack-machine = DFS refinement, nested induction over trees) + differential correspondence",
+   design="5 C02"),
+ "C03": dict(
+   text="Coq theorems over the same walk model: default order = pre-order DFS, -depth = post-order DFS, -prune removes exactly the entries strictly below a pruned in-range directory (filter characterisation), and is a no-op under -depth. Tied to /repo by in-process runs with name-chosen prune sets, both orders and depth bounds; -delete's implied -depth checked on twin trees. One known finding (walkdir: -H root symlink with -depth).",
+   note="Trusted as C02. Known finding H-rootlink-depth is excluded from generation and checked by a dedicated witness.",
+   technique="Coq proof + differential correspondence",
+   design="5 C03"),
 }
 ALL = ["C%02d" % i for i in range(1, 21)]
 def main():
